@@ -194,7 +194,7 @@ static void fp_events(Rng& rng, int n) {
 
 static void rcp_events(Rng& rng, int n) {
 	auto ev = [&](uint32_t d) { uint64_t a = randomx_reciprocal(d), b = randomx_reciprocal_fast(d); Line l; l.str("e", "rcp").limbs("d", &d, 4).w64("r", a).w64("rfast", b); l.emit(out); };
-	ev(3); ev(5); ev(6); ev(7); ev(9); ev(0xffffffffu); ev(0xfffffffeu); ev(0x80000001u); ev(0x7fffffffu); ev(135056501u);
+	ev(3); ev(5); ev(6); ev(7); ev(9); ev(0xffffffffu); ev(0xfffffffeu); ev(0x80000001u); ev(0x7fffffffu);
 	for (int k = 1; k < 32; ++k) { ev((1u << k) + 1); if (k > 1) ev((1u << k) - 1); if (k > 1) ev((1u << k) + (1u << (k - 1))); }
 	for (int i = 0; i < n; ++i) { uint32_t d; do { d = (uint32_t)rng.next(); if (rng.below(4) == 0) d >>= rng.below(31); } while (d == 0 || (d & (d - 1)) == 0); ev(d); }
 }
@@ -227,10 +227,12 @@ int main(int argc, char** argv) {
 		g_useForceImm = false; g_forceDst = -1;
 	}
 	if (part == "sweep") { // all 2^32 divisors: portable vs assembly routine, and the defining inequality with 128-bit integers (measured counts)
+		// quick tier: every 32nd divisor from a seeded offset (2^27 divisors); thorough: all of them
 		unsigned nt = 16; std::vector<unsigned long long> mism(nt, 0), notrcp(nt, 0), cnt(nt, 0);
+		uint64_t stride = thorough ? 1 : 32, off = thorough ? 0 : rng.below(32);
 		std::vector<std::thread> th;
 		for (unsigned t = 0; t < nt; ++t) th.emplace_back([&, t] {
-			for (uint64_t d = 3 + t; d < (1ull << 32); d += nt) {
+			for (uint64_t d = 3 + off + stride * t; d < (1ull << 32); d += stride * nt) {
 				if ((d & (d - 1)) == 0) continue;
 				uint64_t a = randomx_reciprocal((uint32_t)d), b = randomx_reciprocal_fast((uint32_t)d);
 				if (a != b) ++mism[t];
